@@ -1,8 +1,7 @@
-import IndicatorVerif.Props.C02
-import IndicatorVerif.Spec.Indicators
+import IndicatorVerif.Props.C01Gen
 /-
-  C01 — indicator values equal their documented formulas (work in progress: theorems are added
-  indicator by indicator; see DESIGN §6 C01 for the list proved so far).
+  C01 — indicator values equal their documented formulas: hand-written part.
+  (Generated theorems: Props/C01Gen.lean; proved-so-far list: DESIGN §6 C01.)
 -/
 namespace C01
 open Sig Ind
@@ -11,5 +10,27 @@ open Sig Ind
 theorem cache_is_identity {α : Type} [Arith α] (N : Nat) (a : PS α) (i : Nat) :
     (PS.cache N a).val i = a.val i ∧ (PS.cache N a).start = a.start :=
   ⟨PS.cache_val N a i, PS.cache_start N a⟩
+
+/-- what `Agree` means for the lists the Go code emits: for every input length `n`, the list
+    semantics of a well-aligned model term equals the list of formula values for positions
+    `start … n−1` -/
+theorem lists_equal_formula {x : Nat → Nat → ℝ} {e : Sig ℝ} {P : PS ℝ} {A : Nat}
+    (h : Agree x e P) (hg : Good e P.start A) (n : Nat) : evalL (envOf x A n) e = P.toList n :=
+  h.evalL_eq hg n
+
+theorem vpt_formula (N : Nat) (fs : List ℝ) (x : Nat → Nat → ℝ) :
+    ∃ e ps, lookup "Vpt" [] fs = some e ∧ Spec.formulas N "Vpt" [] fs x = some ps ∧
+      List.Forall₂ (Agree x) e.outs ps := by
+  refine ⟨_, _, rfl, rfl, ?_⟩
+  unfold_light
+  repeat' (first | apply List.Forall₂.cons | apply List.Forall₂.nil)
+  apply Sig.Agree.cast
+  agree_core N
+  all_goals (try ps_simp)
+  intro i hi
+  have : (fun (acc : ℝ) (i : ℕ) => acc + (x 0 i - x 0 (i - 1)) / x 0 (i - 1) * x 1 i)
+       = (fun (acc : ℝ) (i : ℕ) => acc + x 1 i * (x 0 i - x 0 (i - 1)) / x 0 (i - 1)) := by
+    funext acc j; ring
+  rw [this]
 
 end C01
